@@ -12,7 +12,8 @@ virtual clock and with its own answers of the stubbed remote / MDQ servers.  The
 of the case are rendered to XML by the writer below (independent of saml2.metadata), signed through
 the xmlsec1 stand-in, and handed to the real store; every observation is canonicalised to the
 model's `Ans` and compared step by step."""
-import hashlib
+import contextlib
+import io
 import json
 import os
 import re
@@ -603,7 +604,7 @@ G.mdq_answers = _mdq_answers
 
 def gen_cases(rng, tier):
     _st["c"] = consts()
-    n = 90 if tier == "quick" else 1200
+    n = 360 if tier == "quick" else 4000
     for i in range(n):
         g = G(rng, tier)
         c = rng.randrange(10)
@@ -766,6 +767,8 @@ def run_impl(case):
     M.requests = req
     remote = {}
     obs = []
+    quiet = contextlib.redirect_stderr(io.StringIO())  # do_entity_descriptor prints every repeated entityID
+    quiet.__enter__()
     try:
         store = MetadataStore(_st["attrc"], _st["conf"])
         store.http.send = lambda url, **kw: _Resp(*remote.get(url, (404, b"")))
@@ -787,6 +790,7 @@ def run_impl(case):
                 else:
                     obs.append(_query(store, op["q"]))
     finally:
+        quiet.__exit__(None, None, None)
         M.requests = real_requests
         shutil.rmtree(tmp, ignore_errors=True)
     return {"obs": obs}
@@ -857,48 +861,78 @@ def nontrivial(case, impl, lean):
     return any(o.get("a") == "ent" for o in impl.get("obs", []))
 
 
+def _without(case, drop):
+    """the case minus the steps whose index is in `drop`; the stub answers of a dropped step move on"""
+    out, pending = [], None
+    for i, st in enumerate(case["steps"]):
+        if i in drop:
+            if st.get("mdq") is not None:
+                pending = st["mdq"]
+            continue
+        st = dict(st)
+        if pending is not None and st.get("mdq") is None:
+            st["mdq"] = pending
+        pending = None
+        out.append(st)
+    return dict(case, steps=out)
+
+
 def shrink(case):
+    """few, aggressive candidates first (the runner evaluates all of them in every round)"""
     steps = case["steps"]
-    # drop lookups (keeping the stub answers attached to a dropped step)
-    for i, st in enumerate(steps):
-        if st["op"]["t"] == "q" and len(steps) > 1:
-            rest = [dict(s) for s in steps[:i] + steps[i + 1:]]
-            if st.get("mdq") is not None and i < len(steps) - 1 and rest[i].get("mdq") is None:
-                rest[i]["mdq"] = st["mdq"]
-            yield dict(case, steps=rest)
+    qidx = [i for i, st in enumerate(steps) if st["op"]["t"] == "q"]
+    n, size = 0, len(qidx)
+    while size >= 1 and n < 36:            # delta debugging over the lookups
+        for start in range(0, len(qidx), size):
+            yield _without(case, set(qidx[start:start + size]))
+            n += 1
+        size //= 2
+    for i, st in enumerate(steps):          # a mutating step
+        if st["op"]["t"] != "q" and len(steps) > 1:
+            yield _without(case, {i})
+    n = 0
     for i, st in enumerate(steps):
         op = st["op"]
-        if "specs" in op:
-            for j, sp in enumerate(op["specs"]):
-                if len(op["specs"]) > 1:
-                    c = json.loads(json.dumps(case))
-                    del c["steps"][i]["op"]["specs"][j]
-                    yield c
-                f = sp["fetch"]
-                if f["t"] == "doc":
-                    ents = f["doc"]["entities"]
-                    for k in range(len(ents)):
-                        if len(ents) > 1:
-                            c = json.loads(json.dumps(case))
-                            del c["steps"][i]["op"]["specs"][j]["fetch"]["doc"]["entities"][k]
-                            yield c
-                        for fld, empty in (("roles", None), ("attrs", []), ("regs", [])):
-                            if fld == "roles":
-                                for x in range(len(ents[k]["roles"])):
-                                    if len(ents[k]["roles"]) > 1:
-                                        c = json.loads(json.dumps(case))
-                                        del c["steps"][i]["op"]["specs"][j]["fetch"]["doc"]["entities"][k]["roles"][x]
-                                        yield c
-                            elif ents[k][fld]:
-                                c = json.loads(json.dumps(case))
-                                c["steps"][i]["op"]["specs"][j]["fetch"]["doc"]["entities"][k][fld] = empty
-                                c["steps"][i]["op"]["specs"][j]["fetch"]["doc"]["entities"][k].pop("attr_split", None)
-                                yield c
-        if st.get("mdq"):
+        for j, sp in enumerate(op.get("specs", [])):
+            if len(op["specs"]) > 1 and n < 40:
+                c = json.loads(json.dumps(case))
+                del c["steps"][i]["op"]["specs"][j]
+                n += 1
+                yield c
+        docs = [("op", j, sp["fetch"]["doc"]) for j, sp in enumerate(op.get("specs", [])) if sp["fetch"]["t"] == "doc"]
+        docs += [("mdq", j, m["fetch"]["doc"]) for j, m in enumerate(st.get("mdq") or []) if m["fetch"]["t"] == "doc"]
+        if st.get("mdq") and n < 60:
             for j in range(len(st["mdq"])):
                 c = json.loads(json.dumps(case))
                 del c["steps"][i]["mdq"][j]
+                n += 1
                 yield c
+        for where, j, d in docs:
+            def doc_of(c):
+                return (c["steps"][i]["op"]["specs"][j] if where == "op" else c["steps"][i]["mdq"][j])["fetch"]["doc"]
+            for k, e in enumerate(d["entities"]):
+                if n >= 90:
+                    return
+                if len(d["entities"]) > 1:
+                    c = json.loads(json.dumps(case))
+                    del doc_of(c)["entities"][k]
+                    n += 1
+                    yield c
+                for x in range(len(e["roles"])):
+                    if len(e["roles"]) > 1:
+                        c = json.loads(json.dumps(case))
+                        del doc_of(c)["entities"][k]["roles"][x]
+                        n += 1
+                        yield c
+                if e["attrs"] or e["regs"] or any(r["keys"] or r["req_attrs"] for r in e["roles"]):
+                    c = json.loads(json.dumps(case))
+                    ee = doc_of(c)["entities"][k]
+                    ee["attrs"], ee["regs"] = [], []
+                    ee.pop("attr_split", None)
+                    for r in ee["roles"]:
+                        r["keys"], r["req_attrs"] = [], []
+                    n += 1
+                    yield c
 
 
 def distribution(recs):
